@@ -5,10 +5,11 @@
 import Model.GeoJSON
 import Lemmas.GeoJSON
 import Lemmas.ReadRestrict
+import Lemmas.GeoRoundtrip
 
 namespace DI.C18
 
-open DI.Geo DI.Read
+open DI.Geo DI.Read DI.Convert
 
 /-- the written file is one well-formed JSON object: the metadata members in order, then
     "features" holding exactly the features in order — for any number (zero included) of
@@ -43,5 +44,114 @@ theorem read_metadata_is_rest (members : List (String × String)) (m : String ×
 example : writeTokens [("type", "\"FeatureCollection\"")] ["F0", "F1"] =
     [.lbrace, .str "type", .colon, .blob "\"FeatureCollection\"", .comma, .str "\"features\"", .colon, .lbrack,
      .blob "F0", .comma, .blob "F1", .rbrack, .rbrace] := by decide
+
+/-! ### round 3: which value is written, and what comes back -/
+
+/-- `write_features_in_order`: a strict parser of the token stream (members `name : blob ,` then
+    `"features" : [ blob , ... blob ] }`, no trailing / missing / doubled comma accepted) reads
+    back from the written file exactly the metadata members and exactly the features — each once,
+    in order — for every number of either, zero included.  Hypothesis (forced, see
+    `write_duplicate_features_key_counterexample`): no metadata member is itself named "features". -/
+theorem write_features_in_order (metadata : List (String × String)) (feats : List String)
+    (hk : ∀ m ∈ metadata, m.1 ≠ featuresKey) :
+    parse (writeTokens metadata feats) = some (metadata, feats) := parse_write metadata feats hk
+
+/-- the parser is exact: a token stream parses to `(metadata, feats)` iff it is the stream `write`
+    produces for them. So the written stream determines the members and the features. -/
+theorem parse_accepts_only_written (ts : List Tok) (metadata : List (String × String)) (feats : List String) :
+    parse ts = some (metadata, feats) ↔
+      (ts = writeTokens metadata feats ∧ ∀ m ∈ metadata, m.1 ≠ featuresKey) :=
+  parse_eq_some_iff ts metadata feats
+
+/-- a metadata member called "features" (possible: `data.metadata.features = ...`) puts two
+    "features" members into the file; the strict parser rejects it. -/
+theorem write_duplicate_features_key_counterexample :
+    parse (writeTokens [(featuresKey, "1")] ["F0"]) = none := parse_write_counterexample
+
+/-- `read_write_roundtrip`: the features `write` builds from a frame's rows (`to_list_of_dicts`,
+    geometry popped, missing values as `null`) are read back as the same frame: column names in
+    order, values, missing positions, and the geometry column — for a frame with at least one row,
+    distinct column names, all columns as long as the geometry column.  (`hnull`: a cell whose JSON
+    text is `null` is the missing value, see `roundtrip_null_is_missing`.) -/
+theorem read_write_roundtrip (cols : List (Col String)) (geoms : List String)
+    (hn : 0 < geoms.length) (hnd : (cols.map (·.1)).Nodup) (hlen : ∀ c ∈ cols, c.2.length = geoms.length)
+    (hnull : ∀ c ∈ cols, ∀ v ∈ c.2, v ≠ some nullBlob) :
+    (readColumns (featuresOf cols geoms) []).1.map (fun c => (c.1, c.2.map pyCell)) = cols ∧
+    (readColumns (featuresOf cols geoms) []).2 = geoms := read_featuresOf cols geoms hn hnd hlen hnull
+
+/-- the same with a `columns` restriction: exactly the requested columns of the frame, in the
+    frame's order. -/
+theorem read_write_roundtrip_restricted (cols : List (Col String)) (geoms : List String) (columns : List String)
+    (hn : 0 < geoms.length) (hnd : (cols.map (·.1)).Nodup) (hlen : ∀ c ∈ cols, c.2.length = geoms.length)
+    (hnull : ∀ c ∈ cols, ∀ v ∈ c.2, v ≠ some nullBlob) :
+    (readColumns (featuresOf cols geoms) columns).1.map (fun c => (c.1, c.2.map pyCell)) =
+      (if columns.isEmpty then cols else cols.filter (fun c => columns.contains c.1)) ∧
+    (readColumns (featuresOf cols geoms) columns).2 = geoms :=
+  read_featuresOf_restricted cols geoms columns hn hnd hlen hnull
+
+/-- what is lost without the hypothesis `0 < n`: a frame without rows writes no feature, and no
+    property column comes back. -/
+theorem roundtrip_empty_frame_loses_columns (cols : List (Col String)) (columns : List String) :
+    readColumns (featuresOf cols []) columns = ([], []) := read_featuresOf_empty cols columns
+
+theorem roundtrip_null_is_missing :
+    (readColumns (featuresOf [("a", [some "null"])] ["G"]) []).1.map (fun c => (c.1, c.2.map pyCell)) =
+      [("a", [none])] := read_featuresOf_null_counterexample
+
+/-- metadata on read: all members but "features", in order; a file whose only "features" member
+    sits anywhere among the others gives the others back. -/
+theorem read_metadata_roundtrip (pre post : List (String × String)) (v : String)
+    (h1 : ∀ m ∈ pre, m.1 ≠ "features") (h2 : ∀ m ∈ post, m.1 ≠ "features") :
+    readMetadata (pre ++ ("features", v) :: post) = pre ++ post := readMetadata_split pre post v h1 h2
+
+/-- `read_missing_where_absent`: every column has one cell per feature; the cell of feature `i` in
+    column `k` is the feature's own entry; Python sees `None` exactly when the feature lacks `k` or
+    holds `k: null`, and the value otherwise. -/
+theorem read_missing_where_absent (feats : List Feature) (columns : List String) (k : String)
+    (vals : List (Option String)) (h : (k, vals) ∈ (readColumns feats columns).1) :
+    vals.length = feats.length ∧
+    ∀ i (hi : i < feats.length),
+      vals[i]? = some (lookup feats[i].props k) ∧
+      (k ∉ feats[i].props.map (·.1) → pyCell (lookup feats[i].props k) = none) ∧
+      (lookup feats[i].props k = some nullBlob → pyCell (lookup feats[i].props k) = none) ∧
+      (∀ v, lookup feats[i].props k = some v → v ≠ nullBlob → pyCell (lookup feats[i].props k) = some v) ∧
+      (pyCell (lookup feats[i].props k) = none ↔
+        (k ∉ feats[i].props.map (·.1) ∨ lookup feats[i].props k = some nullBlob)) := readColumns_cell_full feats columns k vals h
+
+/-- column order: every property key once, in the order of first appearance over all features
+    (`k1` is left of `k2` iff `k1` is first seen before `k2`); a `columns` restriction filters
+    that list. -/
+theorem read_column_order (feats : List Feature) (columns : List String) :
+    (readColumns feats []).1.map (·.1) = (propKeys feats).eraseDups ∧
+    (columns ≠ [] → (readColumns feats columns).1.map (·.1) =
+        ((propKeys feats).eraseDups).filter (fun k => columns.contains k)) ∧
+    ((propKeys feats).eraseDups).Nodup ∧
+    (∀ k, k ∈ (propKeys feats).eraseDups ↔ ∃ f ∈ feats, k ∈ f.props.map (·.1)) ∧
+    (∀ k1 k2, (List.idxOf k1 (propKeys feats).eraseDups < List.idxOf k2 (propKeys feats).eraseDups) ↔
+        (List.idxOf k1 (propKeys feats) < List.idxOf k2 (propKeys feats))) :=
+  ⟨readColumns_names_all feats, readColumns_names_restricted feats columns, nodup_eraseDups _,
+    mem_propKeys feats, fun k1 k2 => idxOf_eraseDups_lt k1 k2 _⟩
+
+/-- absent ≡ null holds for the cells (leaving a `null` property out changes no cell) ... -/
+theorem absent_equiv_null_cells (r : Rec String) (k : String) (hnd : (r.map (·.1)).Nodup) :
+    pyCell (lookup (dropNulls r) k) = pyCell (lookup r k) := pyCell_dropNulls r k hnd
+
+/-- ... but not for the columns: a key first seen with `null` keeps its place only if written. -/
+theorem absent_equiv_null_columns_counterexample :
+    let feats : List Feature := [⟨[("a", "null"), ("b", "1")], "G0"⟩, ⟨[("a", "2"), ("b", "3")], "G1"⟩]
+    (readColumns feats []).1.map (·.1) = ["a", "b"] ∧
+    (readColumns (feats.map (fun f => { f with props := dropNulls f.props })) []).1.map (·.1) = ["b", "a"] :=
+  dropNulls_changes_columns
+
+/-- `read_geometry_column`: one geometry per feature, the feature's own blob, unchanged (`null`
+    included), independent of the properties and of the `columns` restriction. -/
+theorem read_geometry_column (feats : List Feature) (columns : List String) :
+    (readColumns feats columns).2.length = feats.length ∧
+    ∀ i : Nat, (readColumns feats columns).2[i]? = (feats[i]?).map (fun f => f.geometry) :=
+  readColumns_geometry feats columns
+
+example : parse (writeTokens [] []) = some ([], []) := by decide
+example : (readColumns [⟨[("a", "1")], "null"⟩, ⟨[("b", "null")], "G1"⟩] []) =
+    ([("a", [some "1", none]), ("b", [none, some "null"])], ["null", "G1"]) := by decide
 
 end DI.C18
